@@ -1068,6 +1068,31 @@ func TestVerifC20(t *testing.T) {
 		}
 	}
 	rec(nil, 5)
+	// the same, with link-state data whose peer list REPEATS: a node's state at time 10 and at time 30 lists the
+	// same peers, at time 20 other ones (a link that went away and came back) — the stored data must still be the
+	// newest, whatever the arrival order
+	var rec2 func(prefix []c20Update, depth int)
+	rec2 = func(prefix []c20Update, depth int) {
+		if len(prefix) > 1 {
+			fmt.Fprintln(w, c20LsLine(core, prefix))
+			nLs++
+		}
+		if depth == 0 {
+			return
+		}
+		for _, cb := range combos {
+			marker := 20
+			if cb[1] == 20 {
+				marker = 22
+			}
+			rec2(append(append([]c20Update{}, prefix...), c20Update{id: cb[0], ts: cb[1], marker: marker}), depth-1)
+		}
+	}
+	d2 := 3
+	if thorough {
+		d2 = 4
+	}
+	rec2(nil, d2)
 	fmt.Fprintf(w, "# c20: link-state arrival sequences %d\n", nLs)
 
 	// ---- (4) forwarding observed at mock convergence layers of a real Core
